@@ -23,7 +23,9 @@ def step_strategy(draw, small):
         oblocks.append({'name': draw(st.sampled_from(['ob', 'B', 'blk'])), 'gates': members})
     return {
         'other': other, 'oroute': draw(gen.routes(other)), 'oblocks': oblocks,
-        'label_mode': draw(st.sampled_from(['disjoint', 'disjoint', 'as_is'])),
+        # 'prefixed': the attached circuit's labels already begin with '<block name>@' (it may itself be the product of an
+        # earlier composition under that name)
+        'label_mode': draw(st.sampled_from(['disjoint', 'disjoint', 'as_is', 'prefixed'])),
         'entry': draw(st.sampled_from(ENTRIES)), 'right': draw(st.booleans()),
         'pairs': [[draw(st.integers(0, 30)), draw(st.integers(0, 30))] for _ in range(draw(st.integers(0, 3)))],
         'conn_kind': draw(st.sampled_from(['inputs', 'inputs', 'any', 'any', 'repeat', 'full', 'repeat_replaced'])),
@@ -45,8 +47,8 @@ def _plan(cur, step, k):
     """Resolve the abstract step against the current model netlist `cur`.
     Returns dict(entry, this_conn, other_conn, right, other_nl)."""
     other = step['other']
-    if step['label_mode'] == 'disjoint':
-        f = lambda s: f'o{k}_{s}'
+    if step['label_mode'] in ('disjoint', 'prefixed'):
+        f = (lambda s: f'o{k}_{s}') if step['label_mode'] == 'disjoint' or not step['name'] else (lambda s: f'{step["name"]}@{s}')
         other = {'inputs': [f(x) for x in other['inputs']], 'gates': [[f(l), t, [f(o) for o in ops]] for l, t, ops in other['gates']],
                  'outputs': [f(x) for x in other['outputs']]}
     typ_c = {g[0]: g[1] for g in cur['gates']}
